@@ -1,12 +1,18 @@
 import os, sys, hashlib, itertools
-from vf import Check, Stream, VERIF, BUILD, sh
+from vf import Check, Stream, VERIF, BUILD, sh, log, run_exe_on_cases
 
 MON_NAMES = {1: 'timers (once per interval / not before due / least due time first / the loop never sleeps past a due time)',
              2: 'life times and registrations (callback for a dead or unregistered object, event kind not registered)',
-             3: 'failed read/write must be followed by onClosed before the next wait or dispatch',
-             4: 'interrupt/run (run returned without interrupt, or kept waiting although interrupted)'}
+             3: 'a failed read/write must be followed by onClosed (or the removal of the client) before the loop has waited twice',
+             4: 'interrupt/run (run returned without interrupt, or kept waiting although interrupted)',
+             5: 'timers: the loop waits with a negative time-out (= without limit) while a timer is live',
+             6: 'a live, open socket was taken out of the poll set (it can never be dispatched again): epoll_ctl DEL that is not part of a removal, a connect dispatch or a closing'}
 
 IVS = [1, 2, 3, 5, 10]
+# values beyond 32 bits (round 5): intervals whose low 32 bits are small / negative / zero, clock bases next to 2^31, 2^32 (an uptime of 24.9 / 49.7 days)
+WIDE_IVS = [2 ** 31 - 1, 2 ** 32 + 5, 2 ** 32 + 5, 2 ** 33 + 50, 2 ** 32 + 1, 2 ** 31, 2 ** 40]
+BASES = [2 ** 31 - 3, 2 ** 31, 2 ** 31 + 7, 2 ** 32 - 2, 2 ** 32 + 1, 2 ** 41]
+CHUNK = 63      # sockets one epoll_wait of the code (64-entry array, one entry kept for the event descriptor) takes
 
 
 class Gen:
@@ -73,6 +79,8 @@ class Gen:
             else:
                 b = r.choice([2, 2, 2, 8, 10, 16, 24])
             parts.append('%s=%d' % (e, b))
+        if not parts and r.random() < 0.12:
+            return '%d!' % dt         # a handled signal: epoll_wait fails with EINTR after dt
         return '%d:%s' % (dt, ','.join(parts)) if parts else '%d' % dt
 
 
@@ -101,6 +109,8 @@ def case_timers(rng, big=False):
     n = len(g.t)
     iv = rng.choice(IVS)
     same = rng.random() < 0.6
+    if rng.random() < 0.2:
+        g.ops.append('adv %d' % rng.choice(BASES))
     for i in range(n - 1):
         if rng.random() < 0.25:
             g.ops.append('adv %d' % rng.choice([0, 1, iv, 2 * iv]))
@@ -423,6 +433,63 @@ def case_late(rng, big=False):
     return g.ops
 
 
+def case_wide(rng, big=False):
+    """values beyond 32 bits: a clock base next to 2^31 / 2^32 / 2^41 (long uptime), timer intervals of 24.9 days and more whose low 32 bits
+    are small, negative or zero, waits that long; small steps first (a timer cut to 32 bits fires early), long steps afterwards"""
+    g = Gen(rng, nt=5, nc=1, nl=0, ne=0)
+    if rng.random() < 0.6:
+        g.ops.append('adv %d' % rng.choice(BASES))
+    nt = rng.randrange(1, 5)
+    wide = rng.random() < 0.7
+    ivs = []
+    for i in range(nt):
+        iv = rng.choice(WIDE_IVS[:5] if rng.random() < 0.85 else WIDE_IVS) if wide else rng.choice(IVS)
+        ivs.append(iv)
+        if rng.random() < 0.3:
+            g.ops.append('adv %d' % rng.choice([1, 5, 1000]))
+        g.ops.append('timer %d %d' % (i, iv))
+    if rng.random() < 0.4:
+        t = rng.randrange(nt)
+        g.on('t%d' % t, 'act', rng.choice([['rmtimer %d' % t], ['timer %d %d' % (nt, rng.choice(WIDE_IVS[:5] if wide else IVS))], ['interrupt'], []]))
+    g.ops.append('run ' + ' '.join(g.item([], dt=rng.choice([0, 1, 5, 50, 1000])) for _ in range(rng.randrange(1, 4))))
+    if wide and rng.random() < 0.5:
+        # long steps: at most a few intervals of the shortest timer, so that the catch-up work stays small
+        lo = min(ivs)
+        g.ops.append('run ' + ' '.join(g.item([], dt=rng.choice([lo - 1000, lo - 1, lo, lo + 1, 2 ** 32, 5, 0])) for _ in range(rng.randrange(1, 4))))
+        if rng.random() < 0.5:
+            g.ops.append('adv %d' % rng.choice([lo, 2 ** 32]))
+            g.ops.append('run 0 1')
+    return g.ops
+
+
+def case_crowd(rng, big=False):
+    """70..130 sockets ready at the same moment: more than the 64-entry array of Poll::poll takes.  The kernel hands them out 63 at a time
+    (items marked `+` continue the first one: a caller that asks for more than 64 events gets them in ONE call); callbacks remove
+    clients whose event is still buffered or still waiting in the kernel"""
+    n = rng.randrange(70, 131)
+    ops = []
+    if rng.random() < 0.3:
+        ops.append('listen 0')
+    for i in range(n):
+        ops.append('pair %d' % i)
+    ents = ['c%d' % i for i in range(n)]
+    if ops[0] == 'listen 0':
+        ents.append('l0')
+        ops.append('on l0 accepted 200 1')
+    rng.shuffle(ents)
+    for _ in range(rng.randrange(0, 5)):
+        a, b = rng.randrange(n), rng.randrange(n)
+        ops.append('on c%d read 0 0 / %s' % (a, rng.choice(['rmclient %d' % b, 'suspend %d' % b, 'read %d' % a, 'interrupt', 'write %d 3' % b])))
+    items = []
+    for k in range(0, len(ents), CHUNK):
+        part = ents[k:k + CHUNK]
+        items.append('0%s:%s' % ('+' if k else '', ','.join('%s=1' % e for e in part)))
+    ops.append('run ' + ' '.join(items) + ' 1')
+    if rng.random() < 0.5:
+        ops.append('run 0:%s 0' % ','.join('%s=1' % e for e in rng.sample(ents, 5)))
+    return ops
+
+
 def case_mt(rng, big=False):
     """rounds on the real kernel (real eventfd/epoll, real time) with a loop thread and one or two interrupting threads: interrupt()
     before / during / racing with run(), stalls around the write to the event descriptor, a host-name lookup (getaddrinfo interposed)
@@ -442,8 +509,10 @@ def case_mt(rng, big=False):
             rounds.append('n')
         elif x < 0.78:
             rounds.append('2%d' % us)
+        elif x < 0.86:
+            rounds.append(rng.choice(['hf', 'ho', 'ho', 'Hf', 'x', 'x']))
         elif x < 0.93:
-            rounds.append(rng.choice(['hf', 'hf', 'ho', 'Hf', 'x', 'x']))
+            rounds.append('g%d' % rng.choice([0, 100, 1000, 3000]))
         else:
             rounds.append('c')
     ops = []
@@ -490,6 +559,11 @@ SMOKE = [
     ['pair 1', 'on c1 read 0 0 / read 1', 'recvq z', 'on c1 closed 0 0 / timer 0 1 / rmclient 1', 'run 0:c1=1 7'],
     # a client that stays readable while it has a send backlog (level-triggered): the write readiness must be served
     ['pair 1', 'sendq w', 'write 1 5', 'on c1 read 0 0 / read 1', 'on c1 read 0 0 / read 1', 'recvq 3 3', 'run 0:c1=3 0:c1=3 0:c1=1'],
+    # round 5: signals while the loop waits (epoll_wait fails with EINTR): run() goes on, also with an interrupt pending
+    ['pair 1', 'timer 0 5', 'run 2! 5! 0:c1=1 3!', 'interrupt', 'run 1!'],
+    # an uptime of 24.9 days and a timer of 49.7 days + 5 ms
+    ['adv 2147483645', 'timer 0 4294967301', 'timer 1 5', 'run 5 5', 'rmtimer 1', 'run 4294967286 5 5'],
+    ['mt g0 ho g1000 b0'],
 ]
 
 
@@ -506,20 +580,43 @@ def unmap(bits, mask, kind):
     return r
 
 
+LEVEL_WAITS = 3
+
+
 def undelivered(case, obs):
-    """bounded liveness on the implementation's log: every registered socket the simulated epoll reported with an
-    event kind of its interest is dispatched (first observable effect of the dispatch) before the loop waits again,
-    unless it was re-registered or removed meanwhile.  Returns a reason or None."""
+    """bounded liveness on the implementation's log ("every registered socket that is readable, writable-with-backlog, acceptable or
+    connected is EVENTUALLY dispatched"): a registered socket the simulated epoll reported with an event kind of its interest must be
+    dispatched (first observable effect of the dispatch) before the loop has come back from LEVEL_WAITS further epoll_wait calls (calls
+    that end run() - an interrupt arrived together with the events - do not count), unless it was re-registered or removed meanwhile.  The simulated epoll is level triggered (what was reported and not acted upon is reported again by
+    every later epoll_wait, and the end of the script is held back for up to 3 such calls), so a loop that merely drops a buffered event
+    and picks it up from the next epoll_wait passes, a loop that never serves the socket does not.  Returns a reason or None."""
     runs = [l.split()[1:] for l in case if l.split() and l.split()[0] == 'run']
     nrun = 0
     items = []
     k = 0
     reg = {}
     expect = {}
+    tocount = None       # the sockets that were waiting for their dispatch when the loop entered epoll_wait (line number of that wait)
+
+    def served(e, kinds):
+        if e in expect and expect[e][0] in kinds:
+            expect.pop(e)
+
     for n, l in enumerate(obs):
         t = l.split()
         if not t:
             continue
+        if tocount is not None and t[0] not in ('item', 'rereport', 'interrupt'):
+            waiting, at_wait = tocount
+            tocount = None
+            if t[0] != 'ret':
+                for e in sorted(waiting):
+                    if e in expect:
+                        what, at, cnt = expect[e]
+                        if cnt + 1 >= LEVEL_WAITS:
+                            return ('ready socket %s (%s, first reported at line %d) is still not dispatched after %d further epoll_wait calls that '
+                                    'reported it again (last one at line %d)' % (e, what, at, LEVEL_WAITS, at_wait))
+                        expect[e] = (what, at, cnt + 1)
         if t[0] == 'ctl':
             if t[1] == 'del':
                 reg.pop(t[2], None)
@@ -535,9 +632,7 @@ def undelivered(case, obs):
         elif t[0] == 'introret' and t[2] == '0':
             expect.pop(t[1], None)
         elif t[0] == 'wait':
-            if expect:
-                e, (what, at) = sorted(expect.items())[0]
-                return 'ready socket %s (%s, reported at line %d) was not dispatched before the loop waited again (line %d)' % (e, what, at, n)
+            tocount = (set(expect), n)
         elif t[0] == 'item' and t[1] == 'script':
             if k < len(items):
                 it = items[k]
@@ -549,23 +644,20 @@ def undelivered(case, obs):
                         e, b = part.split('=')
                         if e in reg:
                             fl = unmap(int(b), reg[e], e[0])
-                            if fl:
-                                expect[e] = ('W' if 'W' in fl else sorted(fl)[0], n)
+                            if fl and e not in expect:
+                                expect[e] = ('W' if 'W' in fl else sorted(fl)[0], n, 0)
         elif t[0] == 'send' and t[-1] == 'd':
-            if t[1] in expect and expect[t[1]][0] == 'W':
-                expect.pop(t[1])
+            served(t[1], 'W')
         elif t[0] == 'cb' and t[2] == 'write':
-            if t[1] in expect and expect[t[1]][0] == 'W':
-                expect.pop(t[1])
+            served(t[1], 'W')
         elif t[0] == 'cb' and t[2] == 'read':
-            if t[1] in expect and expect[t[1]][0] == 'R':
-                expect.pop(t[1])
+            served(t[1], 'R')
+        elif t[0] == 'cb' and t[2] == 'closed':
+            served(t[1], 'RW')
         elif t[0] == 'accept':
-            if t[1] in expect and expect[t[1]][0] == 'A':
-                expect.pop(t[1])
+            served(t[1], 'A')
         elif t[0] == 'soerr':
-            if t[1] in expect and expect[t[1]][0] == 'C':
-                expect.pop(t[1])
+            served(t[1], 'C')
     return None
 
 
@@ -582,18 +674,29 @@ class C14(Check):
                   'the property text (ServerLoopSpec: timers / life times, registrations and event kinds / failed read-write answered by onClosed / '
                   'interrupt and run), and what acceptance means is proved on the raw log: the (n+1)-th activation of a timer is the one due at '
                   'creation + (n+1)*interval, is not early, and no live timer is due earlier; the loop never waits past the due time of a live timer '
-                  '(time-out taken after everything that can create timers, so no catch-up bursts of its own making); no callback after remove() '
+                  '(time-out taken after everything that can create timers, so no catch-up bursts of its own making) and - under the environment hypothesis Env, '
+                  'intervals > 0 and a clock that is never set back - never with a negative time-out, which for epoll_wait means "without limit" '
+                  '(wait_timeout_nonnegative, monitor wmon); "once per interval" is read as once per ELAPSED interval: a late loop fires one activation per missed '
+                  'interval (catch-up), an implementation that skips missed intervals would be rejected; no callback after remove() '
                   '(also from inside callbacks, with a buffered event, and for the client removed by the very onAccepted/onConnected that announces it; '
                   'Poll::set/remove prune); dispatched kinds are registered kinds (onRead, the send of a backlog, onWrite, accept, connect); a failed '
-                  'read/write (a zero-length write with an empty backlog counts as failed, as in the code) is followed by onClosed before the next '
-                  'wait/dispatch; run() returns only after interrupt(), and once interrupted the next wait is the last; a pending interrupt makes run() return '
+                  'read/write (a zero-length write with an empty backlog counts as failed, as in the code) is followed by onClosed - in the model before the next '
+                  'wait/dispatch (monitor cmon), judged on the implementation in the weaker reading the text supports: before the loop has waited twice (monitor cmt; '
+                  'cmon implies cmt: closed_clause_text_level); a socket leaves the poll set only as part of its removal, its connect dispatch or its closing '
+                  '(socket_stays_registered, monitor kmon - a live listener or client that is silently unregistered can never be dispatched again); '
+                  'run() returns only after interrupt(), and once interrupted the next wait is the last; a pending interrupt makes run() return '
                   'after the buffered events have been served; a ready registered socket that the (fair) epoll reports and no callback removes or suspends is '
                   'dispatched within a bounded number of iterations; the timer and closing phases of an iteration terminate with explicit fuel bounds and run() '
-                  'is never cut off once the fuel is large enough (30 theorems, closed under the global context). '
+                  'is never cut off by fuel once the fuel is large enough - a statement about the proof device and the FINITE epoll script of the model, whose exhaustion '
+                  'injects an interrupt from another thread; it is not a claim that Server::run returns by itself (36 theorems, closed under the global context). '
                   'The model is tied to the code by running the extracted model and the real Server (ASan/UBSan build of the working tree, '
                   'kernel simulated by symbol interposition, private state of Server and Socket::Poll - pools, timer queue, closing set, selected events - '
-                  'read for the state lines) on the same histories, line by line; the extracted monitors and an independent bounded-liveness oracle '
-                  'judge the implementation\'s own log. Cross-thread interrupt(), host-name lookups and clear() run on the real kernel with real threads.')
+                  'read for the state lines) on the same histories, line by line; six extracted monitors (timers, life times/registrations/kinds, closed clause at text '
+                  'level, interrupt/run, no wait without limit, sockets stay registered - all six accept the model\'s log: model_log_accepted_text_level) and an '
+                  'independent bounded-liveness oracle on a LEVEL-TRIGGERED simulated epoll judge the implementation\'s own log. The simulated epoll_wait returns as many '
+                  'events as the caller asks for (70..130 sockets ready at once: a caller that asks for more than its array holds is caught by ASan), can fail with EINTR, '
+                  'and reports a negative time-out with nothing ready as a hang; clock bases and intervals beyond 2^31 / 2^32 are generated. '
+                  'Cross-thread interrupt(), signals, host-name lookups (failing and succeeding) and clear() run on the real kernel with real threads.')
     level_note = ('Round 4 closed the two liveness clauses inside the model, under hypotheses that are written out in the theorems: '
                   '(a) termination of one iteration: timer phase with explicit fuel bound tlag+1 (timer_phase_terminates; measure = over the entries due at '
                   'the sampled now: 1 + (now - due)/interval - a late timer fires once per missed interval, so the measure is not "number of due timers"), '
@@ -614,12 +717,26 @@ class C14(Check):
                   'count positive at the head of an iteration, run() returns after at most |buffer|+1 iterations - buffered events are served before the loop '
                   'looks at the event descriptor, so it is NOT always the current iteration; with an empty buffer it is (the log continues EvNow .. EvWait '
                   'EvItem EvRunRet). The theorems are stated for runs that are not cut off by fuel (stuck = false) and, in the *_total forms, for every '
-                  'sufficiently large fuel under Env. '
-                  'Validated by correspondence only: insertion order among EQUAL due times; the 64-event limit of epoll_wait is outside the model '
-                  '(generators stay below it). Not modelled in Coq, exercised by the real-kernel rounds of the harness only (stream mt: a loop thread and '
+                  'sufficiently large fuel under Env. The structural invariant SInv and CbEx None (every pooled client has a callback object) that appear as '
+                  'hypotheses of the liveness theorems are invariants of every reachable state (structural_invariant_reachable, pooled_clients_have_callback_objects). '
+                  'run_always_returns / enough_fuel_exists hold ONLY because the model\'s epoll script is a finite list and its exhaustion lets another thread call '
+                  'interrupt() (ServerLoopModel.epoll_wait, items = []): they say that fuel never cuts a run off, not that Server::run returns without interrupt() - '
+                  'that run() returns only after interrupt() is run_returns_only_after_interrupt. '
+                  '(d) round 5: wait_timeout_nonnegative needs Env (a timer with a negative interval created in onClosed gives a negative time-out in the model AND in '
+                  'the code); wmon rejects a negative time-out only while a timer is live. Eventual dispatch on the implementation is a BOUNDED oracle: a socket the '
+                  'level-triggered simulated epoll reported inside its interest must be served before the loop has come back from 3 further epoll_wait calls that did '
+                  'not end run() (the unchanged code serves it before the next call; a loop that drops buffered events when an interrupt arrives and picks them up '
+                  'from the next epoll_wait passes). The closed clause is judged as "onClosed or removal before the loop has waited twice" (cmt); the stronger '
+                  '"before the loop waits again" (cmon) holds in the model and is compared through the correspondence only - a closing pass moved in front of the '
+                  'timer phase is not reported as a failing input any more. '
+                  'Validated by correspondence only: insertion order among EQUAL due times. The 64-entry event array of Poll::poll is not in the model: an item is any '
+                  'list of ready sockets, and a crowd of 70..130 ready sockets is written as a first item of 63 and continuation items, which is what consecutive '
+                  'epoll_wait calls with a 64-entry array return; an EINTR failure of epoll_wait is for the loop the same as an item without ready sockets (the model '
+                  'needs no new input class for either). Not modelled in Coq, exercised by the real-kernel rounds of the harness only (stream mt: a loop thread and '
                   'one or two interrupting threads on the real eventfd, stalls injected around the write to the event descriptor, getaddrinfo '
                   'interposed; oracle = every round ends with run() returning within 3 s after interrupt() returned and never before it was called, '
-                  'exactly one onAbolished for a failed lookup, none after remove(), clear() leaves nothing behind): cross-thread timing of interrupt(), '
+                  'exactly one onAbolished for a failed lookup, none after remove(), after a SUCCESSFUL lookup the establisher is registered for its connect event or '
+                  'abolished, a handled signal (EINTR) does not end run(), clear() leaves nothing behind): cross-thread timing of interrupt(), '
                   'DNS-resolver establishers, Server::clear(). In the model interrupt() is the flag being set at an arbitrary point (before run, from '
                   'any callback, or while the loop waits). The Windows/poll() variants of Socket::Poll are not covered. Dropping the mutex around the '
                   'interrupted flag is not detectable here (no observable difference on this platform; mutants/C14/15). '
@@ -628,7 +745,8 @@ class C14(Check):
                   'reported by epoll (HUP/ERR cannot be masked); Poll::poll buffers it with flags 0, the loop treats it as a wake-up and spins until the '
                   'client is resumed or removed - no clause of the property speaks about it. '
                   'Never executed by the check: the failure returns of listen/connect/pair (socket system calls failing), the onAbolished after a '
-                  'failed socket option on a connected establisher, a false return of Poll::poll, and the else-branch deleteClient of the closing pass '
+                  'failed socket option on a connected establisher, a false return of Poll::poll (the epoll variant never returns false; EINTR is answered by a wake-up), '
+                  'and the else-branch deleteClient of the closing pass '
                   '(dead code: pooled_clients_have_callback_objects). The five option setters are called (stream pending/random: opts; mt: nodelay/keepalive) '
                   'but the options themselves are not observed. '
                   'Trusted: Coq kernel, ServerLoopSpec (the monitors), extraction + OCaml driver, the harness and its simulated kernel.')
@@ -639,14 +757,16 @@ class C14(Check):
             're-registered while their event is buffered), io (failed reads/writes incl. zero-length writes, backlog, hang-ups, removal before the closing '
             'pass), interrupt (before/during run, double), announce (clients removed by the onAccepted/onConnected that announces them, with and without a '
             'callback object handed back), late (timers created in onClosed and other callbacks), mt (real kernel + real threads: interrupt() before / during / '
-            'racing with run(), two interrupters, lookups completing together with an interrupt, removal with a pending lookup, clear()), random (also '
+            'racing with run(), two interrupters, signals, lookups completing together with an interrupt, removal with a pending lookup, clear()), wide (clock bases next to '
+            '2^31 / 2^32 / 2^41, intervals and waits of 24.9 days and more), crowd (70..130 sockets ready at once), items that fail with EINTR in every stream, random (also '
             'the socket-option setters), scope '
             '(exhaustive in the thorough tier: every sequence of <= 2 actions of a 12-action alphabet inside an onRead callback x both epoll orders); '
             'non-trivial = the implementation made >= 2 callbacks inside a run() (mt: >= 3 rounds completed); distinct = distinct op text')
-    assumptions = ['level-triggered epoll: a ready registered descriptor and a readable event descriptor are reported by every epoll_wait (fairness of the simulated kernel)',
-                   'at most 63 ready sockets per epoll_wait (the 64-entry event array is not modelled)',
+    assumptions = ['level-triggered epoll: a ready registered descriptor and a readable event descriptor are reported by every epoll_wait (fairness of the kernel; the simulated kernel keeps it: what it reported and the loop has not acted upon is reported again)',
+                   'epoll_wait hands a caller with a 64-entry array at most 63 sockets and the event descriptor per call, the rest with the following calls (the array itself is not modelled; an overflow is left to ASan)',
                    'timer intervals > 0 and a clock that callbacks never set back (Env) for termination of the timer phase and of run() (proved under it; not needed for the safety theorems); callback scripts are finite by construction',
-                   'eventual dispatch: the next epoll item reports the socket as ready (explicit hypothesis `reports`), no callback removes or suspends it, a client is not suspended',
+                   'eventual dispatch: the next epoll item reports the socket as ready (explicit hypothesis `reports`), no callback removes or suspends it, a client is not suspended; on the implementation: served within 3 further epoll_wait calls',
+                   'a failed read/write is answered by onClosed before the loop has waited twice (the text says "followed by"; the bound is the check\'s)',
                    'the application does not touch an object after its remove() returned; identities of removed objects are never reused by the test (pool slots may be)',
                    'mt rounds: a run() that has not returned 3 s after interrupt() returned counts as hung (machine load can in principle produce a false alarm)']
 
@@ -671,6 +791,8 @@ class C14(Check):
         out.append(Stream('interrupt', [case_interrupt(rng, th) for _ in range(100 * m)], note='interrupt before/during run'))
         out.append(Stream('announce', [case_announce(rng, th) for _ in range(120 * m)], note='clients removed by the onAccepted/onConnected that announces them'))
         out.append(Stream('late', [case_late(rng, th) for _ in range(100 * m)], note='timers created in onClosed / other callbacks; the loop must not sleep past a due time'))
+        out.append(Stream('wide', [case_wide(rng, th) for _ in range(60 * m)], note='values beyond 32 bits: clock bases next to 2^31 / 2^32 / 2^41, timer intervals and waits of 24.9 days and more'))
+        out.append(Stream('crowd', [case_crowd(rng, th) for _ in range(6 * (3 if th else 1))], note='70..130 sockets ready at the same moment (more than the 64-entry event array takes), handed out 63 per epoll_wait'))
         out.append(Stream('mt', [case_mt(rng, th) for _ in range(40 * m)], note='real kernel, real threads: interrupt() racing with run(), lookups completing together with an interrupt, clear()'))
         out.append(Stream('random', [case_random(rng, th) for _ in range(200 * m)]))
         if th:
@@ -680,6 +802,30 @@ class C14(Check):
             ex = cases_exhaustive()
             out.append(Stream('scope', [ex[i] for i in sorted(rng.sample(range(len(ex)), 60))], note='sample of the exhaustive scope of the thorough tier'))
         return out
+
+    # a tree on which (nearly) every case crashes or hangs: give up early instead of paying one process start / one watchdog period per case
+    CRASH_BUDGET = 120       # crashes count 1, watchdog time-outs 3
+    MIN_BLOCK = 8            # every stream still runs its first cases (so that every stream can report a failing input)
+
+    def run_impl(self, cases, tag='impl'):
+        wd = os.path.join(BUILD, self.id, 'run')
+        spent = getattr(self, '_crash_spent', 0)
+        res, crashes = [], {}
+        k = 0
+        while k < len(cases):
+            if spent >= self.CRASH_BUDGET and k >= self.MIN_BLOCK:
+                log('[C14] %d harness crashes/time-outs so far: the remaining %d cases of `%s` are not run' % (spent, len(cases) - k, tag))
+                res += [['! notrun'] for _ in cases[k:]]
+                break
+            n = self.MIN_BLOCK if spent >= self.CRASH_BUDGET or k == 0 else 64
+            r, c = run_exe_on_cases(self.exes['impl'], cases[k:k + n], wd, tag, is_impl=True, per_case_timeout=self.per_case_timeout)
+            res += r
+            for i, v in c.items():
+                crashes[k + i] = v
+                spent += 3 if 'timeout' in str(v[0]) else 1
+            k += n
+        self._crash_spent = spent
+        return res, crashes
 
     def monitor(self, obs_per_case, tag='mon'):
         d = os.path.join(BUILD, self.id, 'run')
@@ -717,7 +863,7 @@ class C14(Check):
             v = ver.get(i, (0, 0, '-'))
             if v[0] != 0:
                 # the head of the reason (80 characters) tells the groups of failures apart: monitor and kind of the rejected event
-                head = ('[monitor-%s rejects a `%s` event]' % ('TRCI'[v[0] - 1], v[2].split('_')[0])).ljust(82, '.')
+                head = ('[monitor-%s rejects a `%s` event]' % ('TRCIWK'[v[0] - 1], v[2].split('_')[0])).ljust(82, '.')
                 fails.append((i, v[1], head + ' monitor %d rejects the implementation\'s log at event %d `%s`: %s' % (v[0], v[1], v[2].replace('_', ' '), MON_NAMES[v[0]])))
                 continue
             u = undelivered(c, o)
